@@ -88,6 +88,21 @@ def gen_tasks(tier, seed):
                           "kwargs": {"flow_attr_origin": "node", "weight_type": "int", "k": k}})
             tasks.append({**base, "cls": "MinFlowDecompCycles", "edges": es, "node_flow": nf, "node_mode": True,
                           "kwargs": {"flow_attr_origin": "node", "weight_type": "int"}})
+    # E1b: CrossHair through the real get_solution() with every LP column symbolic (integer models, small LPs)
+    off = {"optimize_with_greedy": False, "optimize_with_flow_safe_paths": False, "optimize_with_safe_paths": False}
+    e1b = [
+        {"cls": "kFlowDecomp", "name": "diamond_cross", "edges": [("a", "b", 3), ("a", "c", 2), ("b", "d", 2), ("c", "d", 3), ("b", "c", 1)], "kwargs": {"k": 3, "weight_type": "int", "optimization_options": off}},
+        {"cls": "kFlowDecompCycles", "name": "two_cycle", "edges": [("s", "a", 1), ("a", "b", 2), ("b", "a", 1), ("b", "t", 1)], "kwargs": {"k": 1, "weight_type": "int"}},
+    ]
+    if tier != "quick":
+        e1b += [
+            {"cls": "kFlowDecomp", "name": "multi_src_sink", "edges": [("a", "c", 2), ("b", "c", 1), ("c", "d", 1), ("c", "e", 2)], "kwargs": {"k": 2, "weight_type": "int", "optimization_options": off}},
+            {"cls": "kFlowDecomp", "name": "diamond_shortcut", "edges": [("a", "b", 1), ("a", "c", 2), ("b", "d", 1), ("c", "d", 2), ("a", "d", 3)], "kwargs": {"k": 3, "weight_type": "int", "optimization_options": off}},
+            {"cls": "kFlowDecompCycles", "name": "self_loop", "edges": [("s", "a", 1), ("a", "a", 2), ("a", "t", 1)], "kwargs": {"k": 1, "weight_type": "int"}},
+            {"cls": "kFlowDecompCycles", "name": "two_cycle_k2", "edges": [("s", "a", 2), ("a", "b", 3), ("b", "a", 1), ("b", "t", 2)], "kwargs": {"k": 2, "weight_type": "int", "optimization_options": {"optimize_with_safe_sequences": False}}},
+            {"cls": "kFlowDecompCycles", "name": "loop_and_cycle", "edges": [("s", "a", 1), ("a", "b", 2), ("b", "a", 1), ("b", "b", 1), ("b", "t", 1)], "kwargs": {"k": 1, "weight_type": "int"}},
+        ]
+    tasks = [{"kind": "e1b", "starts": [], "ends": [], "ignored": [], "timeout": 110 if tier == "quick" else 900, **t} for t in e1b] + tasks
     for i, t in enumerate(tasks):
         t["tid"] = i
     return tasks
@@ -154,7 +169,38 @@ def _lp_flow_terms(enc, inner, cols, wcols):
     return out
 
 
+def _e1b_task(task):
+    from .. import e1b, xh
+    res = new_result()
+    res["evaluations"] = 1
+    cls = task["cls"]
+    res["functions"] = [f"{cls}.get_solution (traced by CrossHair)", "SolverWrapper.get_values", "get_solution_walks/_reconstruct_eulerian_walk" if cls in models.CYCLIC else "get_solution_paths"]
+    t = {k: v for k, v in task.items() if k in ("cls", "edges", "kwargs")}
+    out, cpu = xh.run_module(e1b.source(t, True), f"c02_e1b_{task['tid']}", per_condition_timeout=task["timeout"])
+    res["solver_s"] += cpu
+    v = out.get("check_decode", {"verdict": "error", "message": "no output"})
+    tw = out.get("twin_reach", {"verdict": "error", "message": ""})
+    res["obligations"] += 1
+    res["queries"] += 2
+    res["nontrivial"] += 1
+    res["samples"].append({"obligation": "[E1b] CrossHair: for every integer assignment satisfying the captured LP, the real get_solution() returns k source-to-sink routes of the caller's graph whose weights explain the flow",
+                           "instance": {"cls": cls, "graph": task["name"], "edges": task["edges"], "kwargs": task["kwargs"]}, "verdict": v["verdict"], "reachability_twin": tw["verdict"], "cpu_s": round(cpu, 1)})
+    if v["verdict"] == "confirmed" and tw["verdict"] == "counterexample":
+        res["discharged"] += 1
+    elif v["verdict"] == "counterexample":
+        call = xh.parse_call(v["message"])
+        res["violations"].append({"signature": f"{cls}:E1b-decode-of-legal-answer-wrong", "summary": f"{task['name']}: {v['message'][:200]}", "replay": {"kind": "e1b", "task": task, "call": call}})
+    elif v["verdict"] == "error" or tw["verdict"] == "error":
+        res["harness_errors"].append(f"crosshair failed on E1b {task['name']}: {v['message'][-600:]}")
+    else:
+        res["inconclusive"] += 1
+        res["extra"]["e1b_inconclusive"] = [f"{task['name']}:{v['verdict']}/{tw['verdict']}"]
+    return res
+
+
 def run_task(task):
+    if task.get("kind") == "e1b":
+        return _e1b_task(task)
     res = new_result()
     cls = task["cls"]
     cyc = cls in models.CYCLIC
@@ -296,6 +342,15 @@ def _cls(pr):
 def replay(data):
     from fractions import Fraction as Fr
     task = data["task"]
+    if data.get("kind") == "e1b":
+        from .. import e1b, xh
+        if not data.get("call"):
+            return False
+        fn, pos, kw = data["call"]
+        t = {k: v for k, v in task.items() if k in ("cls", "edges", "kwargs")}
+        r = xh.call_concretely(e1b.source(t, True), "c02_e1b_replay", fn, pos, kw)
+        print(f"  replay: {fn}(...) -> {r}")
+        return r is False
     m, G, ok, snaps = models.build_and_solve(task)
     if data["kind"] == "honest":
         if not ok:
@@ -332,6 +387,7 @@ ASSUMPTIONS = [
     "topology, k, options and flow values enumerated; LP columns symbolic",
     "greedy (max-bottleneck) route is evaluated concretely per enumerated flow, not solver-decided",
     "walk reconstruction from multiplicities is C14",
+    "E1b: CrossHair executes the real get_solution() with all LP columns as symbolic ints and the captured LP as precondition (2 instances in quick, 7 in thorough; integer models with <= ~60 columns)",
 ]
 
 
